@@ -305,14 +305,21 @@ use crate::market::{MarketCase, MARKET_LEVELS};
 
 pub fn market_case_strategy(cfg: GenCfg, max_assets: usize) -> BoxedStrategy<MarketCase> {
     let wide = cfg.wide;
+    // max_assets > 4: 15 % of the cases use a market with many assets (8, 11, 12 or 16; level counts 3 / 10)
+    let n_assets: BoxedStrategy<usize> = if max_assets > 4 {
+        prop_oneof![17 => 1usize..=4, 3 => proptest::sample::select(crate::market::MANY_ASSETS.to_vec())].boxed()
+    } else {
+        (1usize..=max_assets).boxed()
+    };
     let head = (
-        proptest::collection::vec((tick_strategy(wide), 4u32..1000), 1..=max_assets),
+        n_assets.prop_flat_map(move |n| proptest::collection::vec((tick_strategy(wide), 4u32..1000), n)),
         proptest::sample::select(MARKET_LEVELS.to_vec()),
         0u64..1000,
         0u32..100,
     );
     head.prop_flat_map(move |(tm, levels, t0, off)| {
         let n = tm.len();
+        let levels = if n > 4 { if levels % 2 == 0 { 10 } else { 3 } } else { levels };
         let ticks: Vec<u32> = tm.iter().map(|x| x.0).collect();
         let trading = off >= cfg.start_off_pct;
         let per_asset: Vec<(u32, BoxedStrategy<(u8, Op)>)> = tm
@@ -399,6 +406,7 @@ fn instr_strategy(cfg: &EnvGenCfg, frames: &[Frame]) -> BoxedStrategy<Instr> {
             let cancel = rf.clone().prop_map(move |r| Instr::Cancel { asset: a, r });
             let mp = (0u32..100, any_price).prop_map(|(r, p)| if r < 40 { None } else { Some(p) });
             let mv = (0u32..100, vol_strategy(false)).prop_map(|(r, v)| if r < 35 { None } else { Some(v) });
+            let modify_cur = (rf.clone(), any::<bool>(), prop_oneof![2 => Just(None), 3 => Just(Some(0i8)), 2 => Just(Some(-1i8)), 2 => Just(Some(1i8)), 1 => (-4i8..=4).prop_map(Some)]).prop_map(move |(r, restate_price, dvol)| Instr::ModifyCur { asset: a, r, restate_price, dvol });
             let modify = (rf, mp, mv).prop_map(move |(r, price, vol)| Instr::Modify { asset: a, r, price, vol });
             let mut v: Vec<(u32, BoxedStrategy<Instr>)> = vec![(cfg.w_new.max(1), new.boxed())];
             if cfg.w_cancel > 0 {
@@ -406,6 +414,8 @@ fn instr_strategy(cfg: &EnvGenCfg, frames: &[Frame]) -> BoxedStrategy<Instr> {
             }
             if cfg.w_modify > 0 {
                 v.push((cfg.w_modify, modify.boxed()));
+                // restating an order's current price / volume (a re-queue in place) is a class of its own
+                v.push(((cfg.w_modify / 3).max(1), modify_cur.boxed()));
             }
             (1u32, Union::new_weighted(v).boxed())
         })
@@ -417,18 +427,22 @@ fn instr_strategy(cfg: &EnvGenCfg, frames: &[Frame]) -> BoxedStrategy<Instr> {
 pub fn env_case_strategy(cfg: EnvGenCfg) -> BoxedStrategy<EnvCase> {
     let kind = match cfg.kinds {
         0 => Just(0u8).boxed(),
-        1 => (1u8..=4).boxed(),
-        _ => prop_oneof![2 => Just(0u8), 1 => Just(1u8), 2 => Just(2u8), 1 => Just(3u8), 1 => Just(4u8)].boxed(),
+        1 => prop_oneof![12 => 1u8..=4, 1 => proptest::sample::select(vec![8u8, 11, 12, 16])].boxed(),
+        _ => prop_oneof![8 => Just(0u8), 4 => Just(1u8), 8 => Just(2u8), 4 => Just(3u8), 4 => Just(4u8), 1 => proptest::sample::select(vec![8u8, 11, 12, 16])].boxed(),
     };
-    let head = (kind, proptest::collection::vec((1u32..=10, 6u32..1000), 4), 1usize..=crate::dynbook::MAX_LEVELS, proptest::sample::select(MARKET_LEVELS.to_vec()), 0u64..100_000, any::<u64>(), 0u32..100, 0u32..100);
+    let head = (kind, proptest::collection::vec((1u32..=10, 6u32..1000), 16), 1usize..=crate::dynbook::MAX_LEVELS, proptest::sample::select(MARKET_LEVELS.to_vec()), 0u64..100_000, any::<u64>(), 0u32..100, 0u32..100);
     head.prop_flat_map(move |(kind_assets, tm, l_env, l_mkt, t0, seed, off, large)| {
         let n = (kind_assets as usize).max(1);
-        let levels = if kind_assets == 0 { l_env } else { l_mkt };
+        let levels = if kind_assets == 0 { l_env } else if kind_assets > 4 { if l_mkt % 2 == 0 { 10 } else { 3 } } else { l_mkt };
         let ticks: Vec<u32> = tm.iter().take(n).map(|x| x.0).collect();
         let frames: Vec<Frame> = tm.iter().take(n).map(|(tick, mid)| Frame { tick: *tick, mid: *mid, wide: false, offgrid: cfg.offgrid, narrow: false }).collect();
         let trading = off >= cfg.start_off_pct;
         let is_large = !cfg.overfull && large < cfg.large_batch_pct;
-        let (step_size_s, batch_range): (BoxedStrategy<u64>, std::ops::RangeInclusive<usize>) = if cfg.overfull {
+        let is_large_overfull = cfg.overfull && large < cfg.large_batch_pct;
+        let (step_size_s, batch_range): (BoxedStrategy<u64>, std::ops::RangeInclusive<usize>) = if is_large_overfull {
+            // overfull AND large: 33..64 instructions in a step of 8..16 time units
+            ((8u64..=16).boxed(), 33..=64)
+        } else if cfg.overfull {
             ((1u64..=4).boxed(), 0..=16)
         } else if is_large {
             (prop_oneof![Just(64u64), Just(100u64), Just(256u64)].boxed(), 30..=60)
@@ -438,7 +452,7 @@ pub fn env_case_strategy(cfg: EnvGenCfg) -> BoxedStrategy<EnvCase> {
             (prop_oneof![2 => Just(16u64), 1 => Just(17u64), 2 => Just(100u64), 2 => Just(1000u64), 1 => Just(1_000_000u64), 4 => 1u64..=12].boxed(), 0..=cfg.max_batch)
         };
         let mut icfg = cfg.clone();
-        if is_large {
+        if is_large || is_large_overfull {
             icfg.w_new = 200;
         }
         let instr = instr_strategy(&icfg, &frames);
